@@ -174,17 +174,60 @@ func initWinChain(op *Op) []int64 {
 	return vs
 }
 
-// killerClass: the schedule contains an op of a class recorded as stopping a relay direction.
-func killerClass(ops []Op) string {
+// tableDecreaseInFlight: F15 as it is recorded - the relay stopped on the block completed by op `at`,
+// which the sender encoded while a HEADER_TABLE_SIZE decrease of the other endpoint had not reached
+// its encoder (late application), and a decoder kept like the unchanged relay's (Op.DecErr) refuses
+// that very block because it refers to an entry the early decrease evicted.  Decided from the
+// schedule: the decoder is x/net's, fed with the schedule.  A direction that stops on a block that
+// decoder decodes - whatever the relay's own decoder made of it - is not in the class.
+func tableDecreaseInFlight(ops []Op, at int) bool {
+	if at < 0 || at >= len(ops) || !isBlockOp(ops[at].Kind) || !ops[at].EH {
+		return false
+	}
+	if !strings.Contains(ops[at].DecErr, "invalid indexed representation index") {
+		return false
+	}
+	start := at // the frame that began the block
+	for start > 0 && ops[start].Kind == "cont" {
+		start--
+	}
+	size, late := uint32(4096), false
+	for i := 0; i < start; i++ {
+		op := &ops[i]
+		switch {
+		case op.Side != ops[at].Side && op.Kind == "set":
+			for _, kv := range op.Settings {
+				if kv[0] == 1 {
+					// applied by the sender's encoder at once, or (LateApply) after the next block it encodes
+					late = op.LateApply && (late || kv[1] < size)
+					size = kv[1]
+				}
+			}
+		case op.Side == ops[at].Side && (op.Kind == "hdr" || op.Kind == "pp"):
+			late = false // that block was the one in flight
+		}
+	}
+	return late
+}
+
+// hungOp: index into res.Ops of the op on which the relay fell silent, -1 when it did not
+func hungOp(res *Result) int {
+	if res.Hung == "" || res.HungAt < 0 || res.HungAt >= len(res.OpIndex) {
+		return -1
+	}
+	return res.OpIndex[res.HungAt]
+}
+
+// killerClass: the schedule contains an op of a class recorded as stopping a relay direction
+// (hung = index of the op on which the relay fell silent, -1 if none).
+func killerClass(ops []Op, hung int) string {
 	for i := range ops {
 		if ops[i].Kind == "pp" && !ops[i].EH {
 			return "continued-push-promise"
 		}
 	}
-	for i := range ops {
-		if ops[i].Kind == "set" && ops[i].LateApply {
-			return "table-size-decrease-in-flight"
-		}
+	if tableDecreaseInFlight(ops, hung) {
+		return "table-size-decrease-in-flight"
 	}
 	for i := range ops {
 		if ops[i].Kind == "raw" {
@@ -371,7 +414,7 @@ func Evaluate(ctx *core.Ctx, prop string, c Case, res *Result) {
 	}
 
 	lines := res.Lines
-	kclass := killerClass(res.Ops)
+	kclass := killerClass(res.Ops, hungOp(res))
 	if res.Hung != "" {
 		ctx.Count("outcome/hung")
 		// the step on which the relay fell silent is incomplete: the acceptor sees the ones before it
@@ -447,6 +490,7 @@ func Evaluate(ctx *core.Ctx, prop string, c Case, res *Result) {
 		}
 	}
 	if prop == "C10" {
+		judgeSizeUpdates(ctx, replay, res)
 		judgeWire(ctx, replay, res)
 		if e := c.Params.E2E; e != nil {
 			// Model/H2Handoff.lean: what handleMITM leaves armed on the client socket when it hands it to the relay
@@ -470,6 +514,66 @@ func Evaluate(ctx *core.Ctx, prop string, c Case, res *Result) {
 	}
 	if len(res.Late) > 0 && res.Hung == "" {
 		ctx.Disagree("nothing arrives after the final barrier", replay, strings.Join(res.Late, " "), "no frame")
+	}
+}
+
+// judgeSizeUpdates: header blocks that begin with dynamic table size updates (RFC 7541 6.3) against
+// Model/H2TableCap.lean - the relay's decoder refuses none of them, whatever HEADER_TABLE_SIZE values
+// were relayed before (`Relay.runSized`, c10_in_flight_size_update_accepted).  What the relay did: it
+// stopped on such a block and logged the decoder's "dynamic table size update too large".
+func judgeSizeUpdates(ctx *core.Ctx, replay Case, res *Result) {
+	var evs []string
+	opEv := map[int]int{}
+	blocks, above, aboveLast := 0, 0, 0
+	last := map[string]uint32{"c": 4096, "s": 4096} // HEADER_TABLE_SIZE last sent by each side
+	for i := range res.Ops {
+		op := &res.Ops[i]
+		switch {
+		case op.Kind == "set":
+			ev := op.Side + ",s"
+			n := 0
+			for _, kv := range op.Settings {
+				if kv[0] == 1 {
+					ev += fmt.Sprintf(",%d", kv[1])
+					last[op.Side] = kv[1]
+					n++
+				}
+			}
+			if n > 0 {
+				evs = append(evs, ev)
+			}
+		case isBlockOp(op.Kind) && op.EH && len(op.SizeUpd) > 0:
+			ev := op.Side + ",b"
+			for _, u := range op.SizeUpd {
+				ev += fmt.Sprintf(",%d", u)
+				if u > 4096 {
+					above++
+				}
+				if u > last[otherSide(op.Side)] {
+					aboveLast++
+				}
+			}
+			opEv[i] = len(evs)
+			evs = append(evs, ev)
+			blocks++
+		}
+	}
+	if blocks == 0 {
+		return
+	}
+	ctx.CountN("hpack/blocks-beginning-with-a-size-update", blocks)
+	ctx.CountN("hpack/size-update-above-4096", above)
+	ctx.CountN("hpack/size-update-above-the-setting-last-relayed", aboveLast)
+	impl := "ok"
+	if at := hungOp(res); at >= 0 {
+		if k, ok := opEv[at]; ok && res.Ops[at].DecErr == "" && strings.Contains(strings.Join(res.RelayLog, " "), "dynamic table size update too large") {
+			impl = fmt.Sprintf("refused %d", k)
+		}
+	}
+	model := ctx.Model.MustAsk(append([]string{"C10", "sizeupd", "0"}, evs...)...)
+	if model != impl {
+		ctx.Disagree("the relay's HPACK decoder accepts every dynamic table size update a header block begins with (Model.H2TableCap: decoderCap stays math.MaxUint32)", replay,
+			impl+"   ["+strings.Join(evs, " ")+"]", model)
 	}
 }
 
@@ -579,7 +683,14 @@ func MakeCases(ctx *core.Ctx, n int, flowOnly bool) []Case {
 		if ctx.Quick() && p.NOps > 200 && r.Chance(60) {
 			p.NOps = r.Range(20, 200)
 		}
-		cs = append(cs, Case{Kind: "h2", Seed: r.U64(), Params: p})
+		c := Case{Kind: "h2", Seed: r.U64(), Params: p}
+		// HPACK table sizes (drawn last: the schedules of the other dimensions stay what they were)
+		c.Params.TblAdopt = r.Chance(60)
+		if r.Chance(35) {
+			c.Params.TblEpisodes = r.Range(1, 2)
+			c.Params.TblAdopt = r.Chance(85)
+		}
+		cs = append(cs, c)
 	}
 	return cs
 }
@@ -675,7 +786,7 @@ func Run(ctx *core.Ctx, prop string, quick, thorough int, flowOnly bool) {
 	var hungUnexplained atomic.Int32
 	err := RunAllUntil(cases, Workers(), func(i int, c Case, res *Result) {
 		Evaluate(ctx, prop, c, res)
-		if (res.Hung != "" && killerClass(res.Ops) == "") || res.Crashed != "" {
+		if (res.Hung != "" && killerClass(res.Ops, hungOp(res)) == "") || res.Crashed != "" {
 			hungUnexplained.Add(1)
 		}
 		if i >= nCorpus && i < nCorpus+3 {
